@@ -29,6 +29,8 @@ ASSUMPTIONS = ["the output object has the shape of the input (components, dim); 
                "the exogenous model is a function of the matrix of current means only (no hidden state)"]
 
 COUNTS = {"quick": (260, 60), "thorough": (17000, 3000)}
+SEQ_COUNTS = {"quick": 150, "thorough": 4000}
+HOWS = ["same", "set", "time", "moveassign", "movector", "movector+set"]
 
 
 def transition(rng, n):
@@ -92,11 +94,68 @@ def generate(rng, tier):
             c.mat("cur", gen.matrix(rng, n, k, 3.0)).mat("old", gen.matrix(rng, n, k, 7.0))
         c.int("ss", ss).int("se", se)
         cases.append(c)
+    for _ in range(SEQ_COUNTS[tier]):
+        cases.append(sequence_case(rng, len(cases)))
     return cases
+
+
+def sequence_case(rng, cid):
+    """One KFPrediction object, 2-4 predicts; the live model's F, Q (and B, c) at each call are those of the step."""
+    n = rng.randint(1, 5); nsteps = rng.randint(2, 4)
+    have_exo = rng.random() < 0.5
+    hows = ["first"] + [rng.choice(HOWS) for _ in range(nsteps - 1)]
+    c = caseio.Case(cid, "sequence", {"n": n, "comps": 0, "exo": int(have_exo), "fkind": "seq", "rankQ": n, "sp": 0, "ss": 0, "se": 0,
+                                      "nsteps": nsteps, "hows": ",".join(hows)})
+    c.int("nsteps", nsteps).word("steps", hows)
+    F = Q = B = cc = None
+    kmax = 0
+    for s_, h in enumerate(hows):
+        if h in ("same", "movector") and F is not None:
+            pass                                   # the live model still holds the previous matrices
+        else:
+            F, _ = transition(rng, n)
+            Q, _ = psd_any(rng, n)
+            if rng.random() < 0.25 and s_ > 0:     # only one of the two changes
+                if rng.random() < 0.5:
+                    F = c.get("F_%d" % (s_ - 1))
+                else:
+                    Q = c.get("Q_%d" % (s_ - 1))
+            B, cc = gen.matrix(rng, n, n), gen.matrix(rng, n, 1, 4.0)
+        c.mat("F_%d" % s_, F).mat("Q_%d" % s_, Q)
+        if have_exo:
+            c.mat("B_%d" % s_, B).mat("c_%d" % s_, cc)
+        k = rng.randint(1, 4); kmax = max(kmax, k)
+        covs = [psd_any(rng, n)[0] for _ in range(k)]
+        w = np.array([rng.random() + 0.1 for _ in range(k)]); w = np.log(w / w.sum())
+        ow = np.array([rng.random() + 0.1 for _ in range(k)]); ow = np.log(ow / ow.sum())
+        c.mat("means_%d" % s_, gen.matrix(rng, n, k, 3.0)).mat("covs_%d" % s_, np.hstack(covs)).mat("weights_%d" % s_, w.reshape(-1, 1))
+        c.mat("old_means_%d" % s_, gen.matrix(rng, n, k, 7.0)).mat("old_covs_%d" % s_, gen.matrix(rng, n, n * k, 5.0)).mat("old_weights_%d" % s_, ow.reshape(-1, 1))
+    c.mat("F", c.get("F_0")).mat("Q", c.get("Q_0"))       # read by the driver's common prologue
+    c.meta["comps"] = kmax
+    return c
+
+
+def _step_view(c, rec, s_):
+    """A step of a sequence seen as a single predict case: (pseudo case accessor, record accessor)."""
+    class V:
+        kind = "predict"
+        meta = {"sp": 0, "ss": 0, "se": 0, "exo": c.meta["exo"], "comps": c.get("means_%d" % s_).shape[1]}
+        def get(self, name):
+            return c.get("%s_%d" % (name, s_))
+        def has(self, name):
+            return c.has("%s_%d" % (name, s_))
+    class R:
+        def get(self, name, default=None):
+            return rec.get("%s_%d" % (name, s_), default) if rec is not None else default
+        def has(self, name):
+            return rec is not None and rec.has("%s_%d" % (name, s_))
+    return V(), R()
 
 
 def nontrivial(c):
     m = c.meta
+    if c.kind == "sequence":
+        return ("sequence", int(m["n"]), int(m["exo"]), m["hows"])
     n, k = int(m["n"]), int(m["comps"])
     fl = (int(m["sp"]), int(m["ss"]), int(m["se"]))
     rp = int(m.get("rankPmin", n))
@@ -119,6 +178,18 @@ def _mag(c):
 
 
 def compare(c, impl, model):
+    if c.kind == "sequence":
+        d = []
+        hows = c.meta["hows"].split(",")
+        for s_ in range(int(c.meta["nsteps"])):
+            v, ri = _step_view(c, impl, s_)
+            _, rm = _step_view(c, model, s_)
+            d += ["step %d (%s): %s" % (s_, hows[s_], x) for x in _compare_predict(v, ri, rm, check_exo_calls=False)]
+        return d[:8]
+    return _compare_predict(c, impl, model)
+
+
+def _compare_predict(c, impl, model, check_exo_calls=True):
     d = []
     mm, mc = _mag(c)
     if c.kind == "propagate":
@@ -137,6 +208,8 @@ def compare(c, impl, model):
         # the weights are copied or kept, never computed: exact
         if not caseio.close(impl.get("weights"), model.get("weights"), 0, 0):
             d.append("weights: impl=%s model=%s" % (impl.get("weights").ravel(), model.get("weights").ravel()))
+    if not check_exo_calls:
+        return d
     # the exogenous model is consulted once, on all columns, exactly when it is attached and neither it nor the step is skipped early
     sp, ss, se = int(c.meta["sp"]), int(c.meta["ss"]), int(c.meta["se"])
     exp = 0
@@ -148,6 +221,19 @@ def compare(c, impl, model):
 
 
 def oracle(c, impl, model):
+    if c.kind == "sequence":
+        out = []
+        hows = c.meta["hows"].split(",")
+        for s_ in range(int(c.meta["nsteps"])):
+            v, ri = _step_view(c, impl, s_)
+            for sig, det in _oracle_predict(v, ri, None):
+                # which call of the object's life, and what happened to the object / its model just before it
+                out.append(("%s:step=%d:after=%s" % (sig, s_, hows[s_]), "sequence %s, call %d: %s" % (c.meta["hows"], s_, det)))
+        return out
+    return _oracle_predict(c, impl, model)
+
+
+def _oracle_predict(c, impl, model):
     """The property clauses evaluated on the implementation's output (numpy as the independent formula,
     the extracted spec functions as the second one)."""
     v = []
